@@ -73,7 +73,7 @@ PinnedOutcome(o, fl) ==
     [] OTHER              -> <<[class |-> "invalid", site |-> "", msg |-> ""], fl>>
 
 Outcome(o, fl, reusedT) ==
-  IF Design = "repaired" THEN <<Expect(o), FALSE>>
+  IF Design # "pinned" THEN <<Expect(o), FALSE>>
   ELSE PinnedOutcome(o, IF reusedT THEN fl ELSE FALSE)
 
 ---------------------------------------------------------------------------
@@ -93,6 +93,7 @@ E_RunBegin(c) ==
    then everything the discovery glob finds *)
 V_FFList(files) ==
   If(\E f \in cfg.expectFF : \A i \in 1..Len(files) : files[i] # f, "ff_not_found")
+  \cup If(cfg.failfile # "" /\ (files = <<>> \/ files[1] # cfg.failfile), "ff_explicit_not_first")
   \cup If(pc # "list", "ff_list_order")
 E_FFList(files, base) ==
   /\ ffq' = files /\ pc' = "ff" /\ seed' = base
@@ -363,7 +364,7 @@ VerdictOf ==
     C05 |-> {"accept_not_smaller", "accept_other_site", "accept_grew", "result_larger", "failure_site_changed",
              "result_not_best", "try_not_smaller", "final_replay_passes", "final_replay_other_failure", "flaky_report", "check_crashed"},
     C06 |-> {"ff_not_found", "gen_before_failfiles", "failure_not_saved", "persist_mismatch", "replay_not_first",
-             "replay_differs", "save_wrong_buffer", "save_before_capture", "no_failfile_written", "failfile_name", "ff_order",
+             "replay_differs", "save_wrong_buffer", "save_before_capture", "no_failfile_written", "failfile_name", "ff_order", "ff_explicit_not_first",
              "report_failfile", "check_crashed"},
     C07 |-> {"report_seed", "seed_replay_differs", "seed_run_differs", "repro_seed"},
     C09 |-> {"gen_after_failure", "gen_beyond_budget", "vacuous_pass", "pass_count", "no_failnow", "stopped_early",
